@@ -213,7 +213,20 @@ fn main() {
                     "un" => TsigMode::Unsigned { algorithm: a.name().to_owned() },
                     _ => panic!("bad mode"),
                 };
+                // E=<payload>:<extended rcode>:<0|1> : set_edns (+ set_extended_rcode) before (0) or after (1) set_tsig
+                let e = f.iter().find(|x| x.starts_with("E=")).map(|x| &x[2..]).unwrap_or("-");
+                let ev: Vec<&str> = if e == "-" { vec![] } else { e.split(':').collect() };
+                let set_e = |w: &mut Writer| {
+                    w.set_edns(ev[0].parse().unwrap()).unwrap();
+                    w.set_extended_rcode(ExtendedRcode::from(ev[1].parse::<u16>().unwrap())).unwrap();
+                };
+                if !ev.is_empty() && ev[2] == "0" {
+                    set_e(&mut w);
+                }
                 w.set_tsig(mode, p).unwrap();
+                if !ev.is_empty() && ev[2] == "1" {
+                    set_e(&mut w);
+                }
                 let (len, mac) = w.finish_with_mac();
                 let msg = &buf[..len];
                 let mut r = Reader::try_from(msg).unwrap();
